@@ -3,14 +3,17 @@ D7 (C17/C12): the per-object readiness toggle that queueing.watcher creates for 
 object is dropped only on the success path of process_resource_event (after index_resource).
 If that first processing fails before the drop (here: a filter callback of an index handler
 raises for object "a"; the error is swallowed by the per-object throttler as designed), the
-toggle stays in operator_indexed; the worker of "a" later retires without dropping it; and every
+toggle stays in operator_indexed; the worker of "a" retires without dropping it; and every
 other object waits at `operator_indexed.wait_for(True)` forever. (The per-kind toggle leaks the
 same way when a watcher is terminated before its LISTED bookmark.)
+
+The real queueing.worker and the real processing.process_resource_event are driven here exactly
+as queueing.watcher does for two first-seen objects "a" and "b".
 Run: /venv/bin/python D07_readiness_toggle_leak.py
 """
-import asyncio, logging
+import asyncio, functools, logging
 import kopf
-from kopf._core.reactor import processing, inventory
+from kopf._core.reactor import processing, inventory, queueing
 from kopf._core.engines import indexing
 from kopf._core.intents import registries
 from kopf._core.actions import lifecycles
@@ -32,23 +35,33 @@ def idx(name, **_): return {name: 1}
 @kopf.on.create('g', 'v1', 'plural', registry=registry)
 def created(name, **_): calls.append(name)
 
+def body(n):
+    return {'apiVersion': 'g/v1', 'kind': 'K', 'spec': {},
+            'metadata': {'name': n, 'namespace': 'ns', 'uid': 'u' + n, 'resourceVersion': '1'}}
+
 async def main():
-    settings = configuration.OperatorSettings(); settings.queueing.error_delays = [0.01]
-    memories = inventory.ResourceMemories()
+    settings = configuration.OperatorSettings()
+    settings.queueing.error_delays = [0.01]; settings.queueing.idle_timeout = 0.2
     resource = references.Resource('g', 'v1', 'plural', namespaced=True)
     indexers = indexing.OperatorIndexers(); indexers.ensure(registry._indexing.get_all_handlers())
     operator_indexed = aiotoggles.ToggleSet(all)
-    kw = dict(lifecycle=lifecycles.all_at_once, registry=registry, settings=settings, memories=memories,
-              memobase=ephemera.Memo(), resource=resource, indexers=indexers, event_queue=asyncio.Queue(),
-              operator_indexed=operator_indexed)
-    def body(n): return {'apiVersion': 'g/v1', 'kind': 'K', 'metadata': {'name': n, 'namespace': 'ns', 'uid': 'u'+n, 'resourceVersion': '1'}, 'spec': {}}
-    ta = await operator_indexed.make_toggle(name='a')   # as queueing.watcher does per first-seen object
-    tb = await operator_indexed.make_toggle(name='b')
-    await processing.process_resource_event(raw_event={'type': None, 'object': body('a')}, resource_indexed=ta, **kw)
-    print('after object a failed in indexing: toggle a still blocks readiness:', ta in operator_indexed, '| operator_indexed on:', operator_indexed.is_on())
-    try:
-        await asyncio.wait_for(processing.process_resource_event(raw_event={'type': None, 'object': body('b')}, resource_indexed=tb, **kw), timeout=3)
-        print('object b processed; create handler calls:', calls)
-    except asyncio.TimeoutError:
-        print('object b is STUCK behind the readiness gate for 3s+ (would be forever: a\'s worker retires without dropping its toggle); calls:', calls)
+    processor = functools.partial(processing.process_resource_event,
+        lifecycle=lifecycles.all_at_once, registry=registry, settings=settings,
+        memories=inventory.ResourceMemories(), memobase=ephemera.Memo(), resource=resource,
+        indexers=indexers, event_queue=asyncio.Queue())
+    streams = {}; signaller = asyncio.Condition(); workers = {}
+    for n in ('a', 'b'):   # as queueing.watcher does for every first-seen object during the initial listing
+        key = (resource, queueing.ObjectUid('u' + n))
+        toggle = await operator_indexed.make_toggle(name=n)
+        streams[key] = queueing.Stream(backlog=asyncio.Queue(), pressure=asyncio.Event())
+        await streams[key].backlog.put({'type': None, 'object': body(n)})
+        workers[n] = asyncio.create_task(queueing.worker(signaller=signaller, settings=settings, processor=processor,
+            resource_indexed=toggle, operator_indexed=operator_indexed, streams=streams, key=key))
+    await asyncio.sleep(3)
+    print('worker of a retired:', workers['a'].done(), '| readiness toggles still held:', [t.name for t in operator_indexed])
+    if calls == ['b']:
+        print('object b was handled; create handler calls:', calls)
+    else:
+        print('object b is STUCK behind the readiness gate (worker of b done: %s); create handler calls: %s' % (workers['b'].done(), calls))
+    for w in workers.values(): w.cancel()
 asyncio.run(main())
